@@ -832,4 +832,25 @@ theorem chains_associate_left (x y z : Expr) :
     (Expr.or (Expr.or x y) z).toks 0 = x.toks 0 ++ [tk .or b!"OR"] ++ y.toks 1 ++ [tk .or b!"OR"] ++ z.toks 1 := by
   simp [Expr.toks, paren]
 
+
+/-- **text behind a complete expression is rejected**: the canonical tokens of any expression followed by
+    a token that cannot continue it (not AND, OR or a comparison operator — a literal, an identifier, a
+    closing bracket, a comma, ...) and anything after that are refused with "unexpected token after
+    expression"; nothing is dropped silently -/
+theorem trailing_rejected (e : Expr) (he : e.OK nok) (j : Token) (J : List Token)
+    (hj : isComparisonOperator j.type = false) (hand : j.type ≠ .and) (hor : j.type ≠ .or) (heof : j.type ≠ .eof)
+    (fuel : Nat) (hf : e.need + 2 ≤ fuel) :
+    parseSrc (listSrc (e.toks 0 ++ j :: J)) nok fuel = .err "unexpected token after expression" := by
+  obtain ⟨F, rfl⟩ : ∃ F, fuel = F + 2 := ⟨fuel - 2, by omega⟩
+  have L := levels nok (e.toks 0 ++ j :: J) e he
+  have hdrop : (e.toks 0 ++ j :: J).drop (0 + (e.toks 0).length) = j :: J := by simp
+  have hc := cur_of_drop hdrop
+  have hO := L.O 0 (j :: J) F (by simp) (by rw [hc]; exact hj) (by rw [hc]; exact hand) (by omega)
+  have hdl := e.orDepth_le
+  obtain ⟨x, hx⟩ : ∃ x, F + 1 - e.orDepth = x + 1 := ⟨F - e.orDepth, by omega⟩
+  rw [hx, orLoop_stop nok _ _ _ x (by rw [hc]; exact hor)] at hO
+  unfold parseSrc
+  rw [newParser_listSrc]
+  simp only [hO, hc, heof, ↓reduceIte]
+
 end Syzgy.Query
